@@ -259,9 +259,7 @@ func (e *httpEnv) runFaultCase(cs hcase, track bool) {
 	rep := e.rep
 	rep.Progress(cs.label())
 	rep.Eval(1)
-	rep.SetAdd("fault_points", fmt.Sprintf("%s|%s|%s", cs.Kind, cs.Target, cs.class()))
-	rep.SetAdd("pending_counts", fmt.Sprint(cs.Pending))
-	rep.Count("cases_"+cs.Fault, 1)
+	notePoint(rep, string(cs.Kind), cs.Fault, cs.Target+":"+cs.Point, cs.Pending)
 	prefix := nextNonce("h")
 	gate := "g-" + prefix
 	e.px.SetPlans()
@@ -357,7 +355,8 @@ func (e *httpEnv) runFaultCase(cs hcase, track bool) {
 			firedAt = t
 		}
 	}
-	e.judgeCalls(cs, calls, firedAt, delivered > 0)
+	outcomes := e.judgeCalls(cs, calls, firedAt, delivered > 0)
+	sampleOnce(rep, map[string]interface{}{"case": cs, "fault_delivered_to_exchanges": delivered, "outcome_per_pending_call": outcomes})
 	kit.G.Open(gate)
 	e.finishCase(cs, c, calls, track)
 }
@@ -396,7 +395,7 @@ func c08CallTool(c *kit.LibClient, ctx context.Context, cl *call, tool string, a
 }
 
 // judgeCalls applies the per-call oracle.
-func (e *httpEnv) judgeCalls(cs hcase, calls []*call, firedAt time.Time, delivered bool) {
+func (e *httpEnv) judgeCalls(cs hcase, calls []*call, firedAt time.Time, delivered bool) (outcomes []string) {
 	rep := e.rep
 	until := firedAt.Add(watchdog)
 	connEnds := cs.Fault == "close" || cs.Fault == "rst" || cs.Fault == "truncate"
@@ -412,6 +411,7 @@ func (e *httpEnv) judgeCalls(cs hcase, calls []*call, firedAt time.Time, deliver
 			} else {
 				rep.Inconclusive(fmt.Sprintf("%s: watchdog fired but no call goroutine is parked in a library frame", cs.label()))
 			}
+			outcomes = append(outcomes, "not-returned")
 			continue
 		}
 		outcome := "error"
@@ -437,11 +437,17 @@ func (e *httpEnv) judgeCalls(cs hcase, calls []*call, firedAt time.Time, deliver
 				outcome = "deadline-error"
 			}
 		}
-		rep.Max("max_return_after_fault_ms", r.Returned.Sub(firedAt).Milliseconds())
+		rep.Max("return_after_fault_ms", r.Returned.Sub(firedAt).Milliseconds())
+		if r.Err != nil {
+			outcomes = append(outcomes, outcome+": "+clip(r.Err.Error(), 120))
+		} else {
+			outcomes = append(outcomes, outcome)
+		}
 		if delivered {
 			rep.Distinct(fmt.Sprintf("%s|%s|%s|p=%d|%s", cs.Kind, cs.Target, cs.class(), cs.Pending, outcome))
 		}
 	}
+	return outcomes
 }
 
 // finishCase closes the client under the watchdog, drops pooled idle connections, cuts the proxy
@@ -472,7 +478,7 @@ func (e *httpEnv) finishCase(cs hcase, c *kit.LibClient, calls []*call, track bo
 			rep.Inconclusive(cs.label() + ": Close watchdog fired without a library frame")
 		}
 	}
-	rep.Max("max_close_ms", took.Milliseconds())
+	rep.Max("close_ms", took.Milliseconds())
 	if after := mcp.VerifPendingClientRequests(c.Raw()); pending > 0 || after > 0 {
 		rep.Violation(cs.sig("pending-entries-left"), fmt.Sprintf("%s: pending-request table holds %d entries at quiescence and %d after Close", cs.label(), pending, after), map[string]interface{}{"case": cs})
 	}
@@ -506,9 +512,7 @@ func (e *httpEnv) runCancelCase(cs hcase, rng *rand.Rand) {
 	rep := e.rep
 	rep.Progress(cs.label())
 	rep.Eval(1)
-	rep.SetAdd("fault_points", fmt.Sprintf("%s|%s|%s", cs.Kind, cs.Target, cs.class()))
-	rep.SetAdd("pending_counts", fmt.Sprint(cs.Pending))
-	rep.Count("cases_"+cs.Fault, 1)
+	notePoint(rep, string(cs.Kind), cs.Fault, cs.Target+":"+cs.Point, cs.Pending)
 	prefix := nextNonce("x")
 	gate := "g-" + prefix
 	e.px.SetPlans()
@@ -636,10 +640,9 @@ func (e *httpEnv) runCancelCase(cs hcase, rng *rand.Rand) {
 		default:
 			rep.Count("ctx_errors_returned", 1)
 		}
-		rep.Max("max_return_after_cancel_ms", r.Returned.Sub(at).Milliseconds())
+		rep.Max("return_after_cancel_ms", r.Returned.Sub(at).Milliseconds())
 		rep.Distinct(fmt.Sprintf("%s|%s|%s|p=%d|%s", cs.Kind, cs.Target, cs.class(), cs.Pending, outcome))
 	}
 	kit.G.Open(gate)
 	e.finishCase(cs, c, calls, true)
 }
-
